@@ -460,6 +460,11 @@ def clause_f(rep, F):
     rep.extra["panic_sites"] = {"functions": len(fns), "total": total, "mechanically_discharged": disc, "reviewed": sum(len(v) for v in residual.values())}
     rep.floor("functions reachable from the parsing entry points", len(fns), 200)
     rep.floor("panic-capable sites inventoried", total, 100)
+    # the reviewed unreachable!() of state_machine's End arm rests on parse() answering State::End before dispatching: check the premise
+    from . import C02
+    okend, pf = C02.end_answered_before_dispatch(F)
+    rep.check(okend, "unreachable-end-state", "parse", "parse() can dispatch in State::End (for instance when a driver other than next_event delivered StreamEnd): "
+              "the unreachable!() of state_machine's End arm panics", site=pf.span)
     # str slices: the byte offset is a character boundary by construction (a review entry cannot see an off-by-one in the offset)
     from . import utf8
     ns = utf8.check(rep, F, fns)
